@@ -728,6 +728,104 @@ def in_child_exact(job):
     return r[1] if r[0] == "ok" else {"crash": r}
 
 
+# ---- the default (implicit) product switched on -----------------------------------------------------------------
+
+IMPLICIT = "implicitProducts"
+
+
+def gen_default_graph(rng):
+    """A DAG of single-version products d0.. (all current, no unsetup lines), and the default product declared with
+    dependencies of its own: implicitProducts -> iq -> ipp (and sometimes -> ipp directly); nothing else names these."""
+    n = rng.randint(2, 5)
+    names = ["d%d" % i for i in range(n)]
+    prods = []
+    for i, m in enumerate(names):
+        deps = [{"k": "opt" if rng.random() < 0.2 else "req", "n": t, "v": None if rng.random() < 0.7 else "1", "j": False}
+                for t in names[i + 1:] if rng.random() < 0.5]
+        prods.append({"name": m, "version": "1", "tags": ["current"], "deps": deps})
+    prods.append({"name": "ipp", "version": "1", "tags": ["current"], "deps": []})
+    prods.append({"name": "iq", "version": "1", "tags": ["current"], "deps": [{"k": "req", "n": "ipp", "v": None, "j": False}]})
+    ideps = [{"k": "req", "n": "iq", "v": None, "j": False}]
+    if rng.random() < 0.4:
+        ideps.insert(rng.randint(0, 1), {"k": rng.choice(["req", "opt"]), "n": "ipp", "v": None, "j": False})
+    prods.append({"name": IMPLICIT, "version": "1", "tags": ["current"], "deps": ideps})
+    rng.shuffle(prods)
+    return {"products": prods, "shape": "default_product"}
+
+
+def with_implicit_lines(g):
+    """The graph as the tables read with the default product on (independent of the model's `Db.withImplicit`): every table
+    ends with an optional line for the default product, except the tables opened below the default product."""
+    R = Resolved(g)
+    ip = [p for p in g["products"] if p["name"] == IMPLICIT][0]
+    below = {t[0] for t in R.closure((IMPLICIT, ip["version"], True))[0]} - {IMPLICIT}
+    line = {"k": "opt", "n": IMPLICIT, "v": None, "j": False}
+    return {"products": [p if p["name"] in below else dict(p, deps=p["deps"] + [line]) for p in g["products"]]}
+
+
+def run_impl_default(job):
+    graph, roots = job
+    root = common.scratch("c13d")
+    devnull = os.open(os.devnull, os.O_WRONLY)
+    os.dup2(devnull, 1)
+    os.dup2(devnull, 2)
+    try:
+        L.install(root, graph, default_product=True)
+        lists = []
+        for r in roots:
+            row = []
+            for mode in MODES:
+                try:
+                    row.append(L.quietly(_listing, r, mode))
+                except BaseException as ex:  # noqa
+                    row.append(L.err_class(ex))
+            lists.append(row)
+        return {"lists": lists}
+    finally:
+        common.rmtree(root)
+
+
+def in_child_default(job):
+    r = common.in_child(run_impl_default, job)
+    return r[1] if r[0] == "ok" else {"crash": r}
+
+
+def evaluate_default(ctx, graphs):
+    """Listings with the default product declared and switched on; roots: every product not below the default product."""
+    L.preimport()
+    jobs = [(g, [[p["name"], p["version"]] for p in g["products"] if p["name"] not in ("iq", "ipp")]) for g in graphs]
+    impl = parallel_map(in_child_default, jobs, workers=4)
+    answers = ctx.lean.ask_many([dict(model_request(g, roots, []), implicit=IMPLICIT) for g, roots in jobs])
+    for (g, roots), io_, ans in zip(jobs, impl, answers):
+        if "bad-op" in ans:
+            raise common.InfraError("driver rejected a C13 default-product request: %s" % ans["bad-op"])
+        if "crash" in io_:
+            raise common.InfraError("implementation child failed: %r" % (io_["crash"],))
+        R = Resolved(with_implicit_lines(g))
+        ml = model_lists(ans)
+        ctx.hist("shape=default_product")
+        for ri, r in enumerate(roots):
+            for mi, mode in enumerate(MODES):
+                out, mo = io_["lists"][ri][mi], ml[ri][mi]
+                inp = {"graph": g, "root": r, "mode": mode, "default_product": True}
+                ctx.case(key=[g["products"], r, mode, "default"], nontrivial=True)
+                ctx.hist("default_product:%s" % (out if isinstance(out, str) else "ok"))
+                # (root = the default product itself, topological modes: the code takes the root out of the graph it sorts —
+                # it lists itself through its own implicit line — and every depth is one less than in the model; the order is
+                # the same and is checked by the oracle)
+                if out != mo and not (r[0] == IMPLICIT and (mode[0] or mode[1])):
+                    ctx.disagree("listing_default_product", inp, out, mo)
+                for clause, fid, detail in oracle_listing(R, r, mode, out, None):
+                    ctx.fail(clause, inp, out, mo, note=detail, finding=fid)
+                if mode[0] and not isinstance(out, str) and r[0] != IMPLICIT:
+                    d = {e[0]: e[4] for e in out}
+                    if IMPLICIT in d and "iq" in d and "ipp" in d:
+                        ctx.hist("default_product:listed_with_its_dependencies")
+                        if not (d[IMPLICIT] < d["iq"] < d["ipp"]):
+                            ctx.fail("edge_order", inp, out, mo, finding=None,
+                                     note="the default product (depth %s) must come before its dependencies iq (%s) and ipp (%s)" % (d[IMPLICIT], d["iq"], d["ipp"]))
+
+
 def exact_graph(g):
     """the graph an object in exact mode walks first: every table's exact branch where it has one"""
     return {"products": [dict(p, deps=p["xdeps"]) if "xdeps" in p else p for p in g["products"]]}
@@ -1129,6 +1227,8 @@ def corpus_graphs():
                     c = json.load(fh)
                 g = c["graph"]
                 g["shape"] = "corpus:" + f
+                if c.get("default_product"):
+                    g["_default_product"] = True
                 out.append(g)
     return out
 
@@ -1148,8 +1248,12 @@ def run(ctx):
     big = ctx.tier == "thorough" or ctx.escalated
     cg = corpus_graphs()
     ctx.hist("corpus", len(cg))
+    cd = [{k: v for k, v in g.items() if k != "_default_product"} for g in cg if g.get("_default_product")]
+    cg = [g for g in cg if not g.get("_default_product")]
     if cg:
         evaluate(ctx, cg, ncli=1)
+    if cd:
+        evaluate_default(ctx, cd)
     evaluate_topo(ctx, 1500)
     total = enum_count()
     ids = [(ctx.seed * 977 + k * 103) % total for k in range(30)]
@@ -1160,9 +1264,12 @@ def run(ctx):
         k = min(60, n - done)
         evaluate(ctx, [gen_graph(ctx.rng, wide=ctx.tier == "thorough") for _ in range(k)])
         done += k
+    evaluate_default(ctx, [gen_default_graph(ctx.rng) for _ in range(12)])
     if ctx.evaluations and ctx.distinct_nontrivial < ctx.evaluations * 0.3:
         raise common.InfraError("degenerate distribution: %d non-trivial of %d" % (ctx.distinct_nontrivial, ctx.evaluations))
     h = ctx.histogram
+    if not h.get("default_product:listed_with_its_dependencies"):
+        raise common.InfraError("degenerate distribution: no topological listing with the default product and its dependencies")
     if done >= 100:
         for need in FLOORS:
             if not h.get(need):
@@ -1196,6 +1303,13 @@ def replay(ctx, rp):
         a = ctx.lean.ask({"m": "c13", "op": "topo", "graph": g, "cc": cc})
         return {"input": inp, "impl_output": impl, "model_output": a, "fails": []}
     g = inp["graph"]
+    if inp.get("default_product"):
+        c2 = common.Ctx(ctx.pid, ctx.tier, ctx.seed, 600)
+        c2.lean = ctx.lean
+        evaluate_default(c2, [{k: v for k, v in g.items()}])
+        fails = [{"clause": f["clause"], "class": f.get("finding_class"), "detail": f.get("note")} for f in c2.failures]
+        return {"input": inp, "impl_output": [d["impl_output"] for d in c2.disagreements][:3],
+                "model_output": [d["model_output"] for d in c2.disagreements][:3], "agree": not c2.disagreements, "fails": fails[:5]}
     if inp.get("exact"):
         # exact-mode cases depend on everything the shared object listed before: re-run the whole graph
         c2 = common.Ctx(ctx.pid, ctx.tier, ctx.seed, 600)
